@@ -106,8 +106,62 @@ func hasLoops(fn *ssa.Function) bool {
 	return false
 }
 
+// beforeHints checks and then assumes the proof hints attached to this call site.
+func (x *Exec) beforeHints(fr *Frame, i *ssa.Call) {
+	if !fr.top || fr.contract == nil || len(fr.contract.Before) == 0 || x.probing > 0 {
+		return
+	}
+	common := i.Common()
+	name := ""
+	switch {
+	case common.IsInvoke():
+		name = common.Method.Name()
+	default:
+		switch c := common.Value.(type) {
+		case *ssa.Function:
+			name = c.Name()
+			if o := c.Origin(); o != nil {
+				name = o.Name()
+			}
+		case *ssa.Builtin:
+			name = c.Name()
+		}
+	}
+	if name == "" {
+		return
+	}
+	if fr.callCount == nil {
+		fr.callCount = map[string]int{}
+	}
+	fr.callCount[name]++
+	keys := []string{name, fmt.Sprintf("%s#%d", name, fr.callCount[name])}
+	for _, k := range keys {
+		for n, cl := range fr.contract.Before[k] {
+			env := x.funcEnv(fr, fr.curSt)
+			env.loop = fr.innermostLoop(fr.curBlock)
+			label := cl.Label
+			if label == "" {
+				label = fmt.Sprintf("%s:%d", k, n+1)
+			}
+			g := x.evalBool(env, cl.E)
+			x.oblige(fr, "assert", label, x.clauseTags(fr.contract, cl), g, fr.curPC, "proof hint before call to "+k, cl.Src)
+		}
+	}
+}
+
+func (fr *Frame) innermostLoop(b *ssa.BasicBlock) *Loop {
+	var best *Loop
+	for _, l := range fr.loopList {
+		if l.Body[b] && (best == nil || best.Body[l.Header]) {
+			best = l
+		}
+	}
+	return best
+}
+
 func (x *Exec) call(fr *Frame, i *ssa.Call) {
 	common := i.Common()
+	x.beforeHints(fr, i)
 	pc := fr.curPC
 	if common.IsInvoke() {
 		x.invoke(fr, i)
